@@ -158,7 +158,7 @@ def case_getitem(ses, case):
     if k1kind == "int":
         hyps += [v1[0] >= 0, v1[0] < w.W]
     tag = f"{tc}/{k0kind},{k1kind}"
-    ses.cover(f"C02/getitem/{tag}/pre-satisfiable", [h for h in hyps if not z3.is_quantifier(h)], function=fn)
+    ses.cover(f"{ses.prop}/getitem/{tag}/pre-satisfiable", [h for h in hyps if not z3.is_quantifier(h)], function=fn)
 
     def run(path, extra):
         it = Interp(path)
@@ -169,14 +169,14 @@ def case_getitem(ses, case):
         extra["it"] = it
         return res
 
-    ok = explore_checked(ses, f"C02/getitem/{tag}", run, hyps, function=fn, timeout_ms=800, replay=replay_getitem)
+    ok = explore_checked(ses, f"{ses.prop}/getitem/{tag}", run, hyps, function=fn, timeout_ms=800, replay=replay_getitem)
     for pi, r in enumerate(ok):
         it = r.extra["it"]
         res = r.value
         path = r.path
         exp = r.extra["exp"]
         base = path_hyps(path)
-        pid = f"C02/getitem/{tag}/path{pi}"
+        pid = f"{ses.prop}/getitem/{tag}/path{pi}"
         if not isinstance(res, SymNd):
             ses.decided(f"{pid}/result-is-array", False, function=fn, detail={"got": repr(res)[:200]})
             continue
@@ -203,7 +203,7 @@ def case_getitem(ses, case):
         defs = definition_instances(path, idx)
         ses.prove(f"{pid}/elements", path_hyps(path, defs + lemmas), elems_equal(got, want), function=fn, replay=replay_getitem,
                   detail={"got": repr(got)[:300], "want": repr(want)[:300]})
-        io_log_obligations(ses, f"C11/getitem/{tag}/path{pi}", w, it, path, fn)
+        io_log_obligations(ses, f"{ses.prop}/io/getitem/{tag}/path{pi}", w, it, path, fn)
 
 
 def io_log_obligations(ses, oid, w, it, path, fn):
